@@ -148,6 +148,47 @@ def run_case(ns, mon, case):
         res["stack(const first)"] = (sg.stack([c64, x64], 0), True)
         res["concat(const first)"] = (sg.concat([c64, x64], 0), True)
         res["addmm(only a req)"] = (sg.addmm(T(np.zeros((2, 2)), requires_grad=True), T(np.ones((2, 2))), T(np.ones((2, 2)))), True)
+        # layer (Module) forms: the result of a layer applied to an input that requires grad follows the mode like any op result;
+        # frozen layers (no parameter requires grad) on a constant input give a constant
+        nn_ = ns.nn
+        img = T(np.arange(32, dtype=np.float64).reshape(1, 2, 4, 4) / 7.0 - 2.0, requires_grad=True)
+        sig1 = T(np.array([[[0.5, -1.0, 2.0, 0.3, 1.5, -0.7]]]), requires_grad=True)
+        xb = T(np.array([[1.0, 2.0, -1.0], [0.5, 0.1, 3.0], [2.0, -2.0, 0.0], [1.5, 1.0, 1.0]]), requires_grad=True)
+        cimg, cxb = T(img.data.copy()), T(xb.data.copy())
+        pr = T(np.array([[0.2, 0.7], [0.6, 0.4]]), requires_grad=True)
+        layers_ = [
+            ("Linear", nn_.Linear(3, 2), xb), ("Linear(no bias)", nn_.Linear(3, 2, bias=False), xb), ("Neuron", nn_.Neuron(3), xb),
+            ("Flatten", nn_.Flatten(), img), ("Dropout(0)", nn_.Dropout(0), xb), ("Dropout(0.5)", nn_.Dropout(0.5), xb), ("Dropout(1)", nn_.Dropout(1), xb),
+            ("Dropout(1.0)", nn_.Dropout(1.0), xb), ("Unfold", nn_.Unfold(2), img), ("MaxPool1d", nn_.MaxPool1d(2), sig1), ("MaxPool2d", nn_.MaxPool2d(2), img),
+            ("AvgPool1d", nn_.AvgPool1d(2), sig1), ("AvgPool2d", nn_.AvgPool2d(2), img), ("Conv1d", nn_.Conv1d(1, 2, 3), sig1),
+            ("Conv1d(no bias)", nn_.Conv1d(1, 2, 3, bias=False), sig1), ("Conv2d", nn_.Conv2d(2, 1, 3), img), ("Conv2d(no bias)", nn_.Conv2d(2, 1, 3, bias=False), img),
+            ("BatchNorm1d", nn_.BatchNorm1d(3), xb), ("BatchNorm1d(no affine)", nn_.BatchNorm1d(3, affine=False), xb),
+            ("BatchNorm2d(no stats)", nn_.BatchNorm2d(2, track_running_stats=False), img),
+            ("ReLU", nn_.ReLU(), xb), ("LeakyReLU", nn_.LeakyReLU(0.1), xb), ("SELU", nn_.SELU(), xb), ("Tanh", nn_.Tanh(), xb), ("Sigmoid", nn_.Sigmoid(), xb),
+            ("Softmax", nn_.Softmax(1), xb), ("LogSoftmax", nn_.LogSoftmax(1), xb),
+            ("Sequential", nn_.Sequential(nn_.Linear(3, 3), nn_.Tanh(), nn_.Linear(3, 1)), xb),
+        ]
+        for lname, layer, inp in layers_:
+            res[f"layer {lname}(x req)"] = (layer(inp), True)
+            res[f"layer {lname}.forward(x req)"] = (layer.forward(inp), True)
+        for lname, layer, inp in layers_:
+            has_params = bool(layer.parameters())
+            if has_params:
+                res[f"layer {lname}(const x, trainable layer)"] = (layer(T(inp.data.copy())), True)
+                layer.freeze()
+                res[f"layer {lname}(x req, frozen layer)"] = (layer(inp), True)
+            res[f"layer {lname}(const x, frozen/parameter-free layer)"] = (layer(T(inp.data.copy())), False)
+        bnm = nn_.BatchNorm1d(3); bnm.eval()
+        res["layer BatchNorm1d.eval()(x req)"] = (bnm(xb), True)
+        seq_e = nn_.Sequential(nn_.Linear(3, 2), nn_.ReLU()); seq_e.eval()
+        res["layer Sequential.eval()(x req)"] = (seq_e(xb), True)
+        tgt = T(np.array([[0.0, 1.0], [1.0, 0.0]]))
+        lab = T(np.array([1, 0]))
+        for lname, lossm, a_, b_ in (("MSELoss", nn_.MSELoss(), pr, tgt), ("BCELoss", nn_.BCELoss(), pr, tgt), ("BCEWithLogitsLoss", nn_.BCEWithLogitsLoss(), pr, tgt),
+                                     ("CrossEntropyLoss", nn_.CrossEntropyLoss(), pr, lab), ("NLLLoss", nn_.NLLLoss(), pr, lab),
+                                     ("MSELoss(sum)", nn_.MSELoss(reduction="sum"), pr, tgt), ("CrossEntropyLoss(none)", nn_.CrossEntropyLoss(reduction="none"), pr, lab)):
+            res[f"loss {lname}(pred req)"] = (lossm(a_, b_), True)
+            res[f"loss {lname}(const pred)"] = (lossm(T(a_.data.copy()), b_), False)
         for name, (t, anyreq) in res.items():
             want = g and anyreq
             if bool(t.requires_grad) != want:
@@ -259,6 +300,50 @@ def run_case(ns, mon, case):
         d = x64.detach()
         if d.requires_grad or d.grad_fn is not None or np.shares_memory(d.data, x64.data):
             bad("guards:detach", "detach() result requires grad, has a grad_fn or shares storage")
+        # detach() of an intermediate result: a constant cut off from its history; switched back on it is a leaf of the graphs built from it
+        xs_ = T(np.array([1.0, 2.0, 3.0]), requires_grad=True)
+        mid = (xs_ * 2.0) + 1.0
+        dm = mid.detach()
+        if dm.requires_grad or dm.grad_fn is not None or not dm.is_leaf or np.shares_memory(dm.data, mid.data):
+            bad("guards:detach:non-leaf", f"detach() of an intermediate result: requires_grad={dm.requires_grad}, grad_fn present={dm.grad_fn is not None}, is_leaf={dm.is_leaf}")
+        else:
+            dm.requires_grad = True
+            if g:
+                try:
+                    if not dm.is_leaf or dm.grad_fn is not None:
+                        bad("guards:detach:non-leaf", "a detached intermediate that was switched to require grad is not a leaf")
+                    (dm * dm).sum().backward()
+                    if dm._grad is None or not np.allclose(dm._grad, 2 * dm.data) or xs_._grad is not None:
+                        bad("guards:detach:non-leaf:gradient", "backward through a detached-and-re-enabled intermediate: wrong leaf gradient or the old graph was reached",
+                            got=None if dm._grad is None else dm._grad.tolist(), reached_source=xs_._grad is not None)
+                except Exception as e:
+                    bad("guards:detach:non-leaf:backward-raises", f"backward from a graph built on a detached intermediate raised {type(e).__name__}: {str(e)[:120]}")
+        # calls that are legally refused must leave the gradient mode (and what ops produce afterwards) exactly as it was
+        yv = x64 * 2.0
+        refused = [
+            ("backward(seed of another shape)", lambda: yv.backward(T(np.ones((2, 2))))),
+            ("backward(seed longer)", lambda: (x64 * 3.0).backward(T(np.ones(4)))),
+            ("backward(non-tensor seed)", lambda: (x64 * 3.0).backward(np.ones(3))),
+            ("backward() of a non-scalar", lambda: (x64 * 3.0).backward()),
+            ("add(incompatible shapes)", lambda: x64 + T(np.ones(2))),
+            ("matmul(incompatible shapes)", lambda: m22 @ T(np.ones((3, 2)), requires_grad=True)),
+            ("reshape(impossible)", lambda: x64.reshape((2, 2))),
+            ("conv1d(kernel longer than input)", lambda: sg.conv1d(T(np.ones((1, 1, 2)), requires_grad=True), T(np.ones((1, 1, 3)), requires_grad=True))),
+            ("max_pool2d(kernel larger than input)", lambda: sg.max_pool2d(T(np.ones((1, 1, 2, 2)), requires_grad=True), 3)),
+            ("item() of several elements", lambda: x64.item()),
+            ("unfold(size larger than the dimension)", lambda: x64.unfold(0, 5, 1)),
+            ("concat(incompatible)", lambda: sg.concat([x64, m22], 0)),
+        ]
+        for what_, call_ in refused:
+            try:
+                with np.errstate(all="ignore"):
+                    call_()
+                counters["refused_call_answered"] = counters.get("refused_call_answered", 0) + 1
+            except Exception:
+                counters["refused_calls"] = counters.get("refused_calls", 0) + 1
+            trail.append("refused: " + what_)
+            probe_flags("after the refused call " + what_)
+            trail.pop()
         if c64.numpy() is None:
             bad("guards:numpy", "numpy() returned nothing")
 
